@@ -631,6 +631,60 @@ example : matchPathRequireCall [.normal ['p', 'k', 'g'], .parent, .normal ['m']]
     matchPathRequireCall [.normal ['p', 'k', 'g'], .normal ['x'], .parent, .cur] = [.normal ['p', 'k', 'g']] ∧
     Comp.root ∉ [Comp.parent, Comp.normal ['m']] := by decide
 
+/-! ## What counts as the module-folder file -/
+
+theorem splitLastDot_eq {n b a : Name} (h : splitLastDot n = some (b, a)) : n = b ++ '.' :: a := by
+  unfold splitLastDot at h
+  split at h
+  · rename_i beforeRev heq
+    simp only [Option.some.injEq, Prod.mk.injEq] at h
+    obtain ⟨rfl, rfl⟩ := h
+    have h2 := List.takeWhile_append_dropWhile (p := fun c => decide (c ≠ '.')) (l := n.reverse)
+    rw [heq] at h2
+    have := congrArg List.reverse h2
+    simpa using this.symm
+  · simp at h
+
+/-- `generate_require` drops the last component as "the module-folder file" only for a file
+whose name is exactly the module folder name or, when that name has no extension, the name
+followed by `.luau` / `.lua` — the documented module-folder candidates, nothing else (full
+statement; before the fix of C15-F32 `init.json` qualified). -/
+theorem module_file_is_documented (folder n : Name) (d : Path)
+    (h : isModuleFolderName folder (d ++ [.normal n]) = true) :
+    n = folder ∨ ((pathExtension (components folder)).isNone = true ∧
+      (n = folder ++ '.' :: luauExt ∨ n = folder ++ '.' :: luaExt)) := by
+  have hf : fileName (d ++ [.normal n]) = some n := by simp [fileName]
+  simp only [isModuleFolderName, hf, Bool.or_eq_true, Bool.and_eq_true, beq_iff_eq] at h
+  rcases h with h | ⟨⟨h1, h2⟩, h3⟩
+  · exact Or.inl h
+  · right
+    refine ⟨h1, ?_⟩
+    unfold extension at h2
+    unfold fileStem at h3
+    by_cases hdd : n = ['.', '.']
+    · simp [hdd, isLuaExt] at h2
+    · simp only [hdd, if_false] at h2 h3
+      cases hs : splitLastDot n with
+      | none => simp [hs, isLuaExt] at h2
+      | some ba =>
+        obtain ⟨b, a⟩ := ba
+        have hn := splitLastDot_eq hs
+        simp only [hs] at h2 h3
+        by_cases hb : b = []
+        · simp [hb, isLuaExt] at h2
+        · simp only [hb, if_false] at h2 h3
+          subst h3
+          simp only [isLuaExt, Bool.or_eq_true, beq_iff_eq, Option.some.injEq] at h2
+          rcases h2 with h2 | h2
+          · left; rw [hn, h2]
+          · right; rw [hn, h2]
+
+example : isModuleFolderName initName [.normal ['m'], .normal ['i', 'n', 'i', 't', '.', 'l', 'u', 'a']] = true ∧
+    isModuleFolderName initName [.normal ['m'], .normal ['i', 'n', 'i', 't', '.', 'd']] = false ∧
+    isModuleFolderName ['i', 'n', 'i', 't', '.', 'l', 'u', 'a'] [.normal ['m'], .normal ['i', 'n', 'i', 't', '.', 'l', 'u', 'a']] = true ∧
+    isModuleFolderName ['i', 'n', 'i', 't', '.', 'l', 'u', 'a'] [.normal ['m'], .normal ['i', 'n', 'i', 't', '.', 'l', 'u', 'a', '.', 'l', 'u', 'a']] = false := by
+  decide
+
 /-! ## convert_require keeps the target -/
 
 instance instDecEqExcept {ε α : Type} [DecidableEq ε] [DecidableEq α] : DecidableEq (Except ε α)
